@@ -16,6 +16,9 @@
 (*                          list, so lists nested in an exported list keep unfrozen handles             *)
 (*   FlawSharedConstants    list literals made of constants are folded to ONE unfrozen object shared    *)
 (*                          by every evaluation (function bodies, default arguments) in every package   *)
+(*   FlawSharedLiterals     ... and an evaluation of such a literal in a function body hands out that   *)
+(*                          object itself; repaired in the code (each evaluation gets a copy), so only  *)
+(*                          default arguments -- evaluated once, as in Python -- still share theirs     *)
 (*   FlawInPlaceSort        sorted()/reversed() reorder the backing object of their argument            *)
 (*                          (`l = l[:]` does not copy) and return a handle to it                        *)
 (*   FlawAppendSharesCapacity  `a + b` is slices.Clip(append(a, b...)): when a's backing array has spare     *)
@@ -38,7 +41,7 @@
 (* (`expect` = Original) next to the code-shaped prediction (`algo`).                                   *)
 EXTENDS Integers, Sequences, FiniteSets, TLC, Json, SequencesExt
 
-CONSTANTS FlawShallowListFreeze, FlawSharedConstants, FlawInPlaceSort, FlawAppendSharesCapacity,
+CONSTANTS FlawShallowListFreeze, FlawSharedConstants, FlawSharedLiterals, FlawInPlaceSort, FlawAppendSharesCapacity,
           FlawSortedAliasesOrdered,
           OnlyTargets,   \* {} = the whole menu; otherwise P1 only touches these targets
           DeepTargets,   \* {} = no restriction; otherwise attempts after the first only touch these targets
@@ -125,6 +128,10 @@ VARIABLE sub
 SEnv == sub.env
 Const(r) == Handle(r, ~FlawSharedConstants)          \* repaired design: folded constants are frozen
 
+\* evaluating a folded list literal in a function body: the shared object itself, or (repaired) a copy of it
+Literal(h, r) == IF FlawSharedLiterals THEN Result(h, Const(r), FALSE)
+                 ELSE LET a == Alloc(h, h[r]) IN Result(a.h, a.v, FALSE)
+
 \* ---------------- what P2 observes (its probes, in the order it reads them)
 \* "Fcat" is F + [8]: P2 appends (step "Fcat_w") and later serialises what it built (step "Fcat")
 Probes == <<"L", "N", "D", "getL", "mk", "dflt", "mkd", "A", "Z", "F", "Fcat_w", "Fcat">>
@@ -202,10 +209,11 @@ TgtVal(h, env, t) ==
     [] t = "Dk"   -> LET e == Elem(h, env.D, "k") IN
                      IF e = Unbound \/ ~IsRef(env.D) \/ h[RefOf(env.D)].kind # "dict" THEN Err(h) ELSE Result(h, e, FALSE)
     [] t = "getL" -> Result(h, SEnv.L, FALSE)
-    [] t = "mk"   -> Result(h, Const(7), FALSE)
+    [] t = "mk"   -> Literal(h, 7)
     [] t = "dflt" -> Result(h, Const(8), FALSE)
-    [] t = "mkd"  -> LET a == Alloc(h, Obj("dict", <<"k">>, <<Const(9)>>)) IN Result(a.h, a.v, FALSE)   \* a dict literal is never folded
-    [] t = "mkdk" -> Result(h, Const(9), FALSE)
+    [] t = "mkd"  -> LET e == Literal(h, 9)
+                         a == Alloc(e.h, Obj("dict", <<"k">>, <<e.v>>)) IN Result(a.h, a.v, FALSE)   \* a dict literal is never folded
+    [] t = "mkdk" -> Literal(h, 9)
 
 \* ---------------- the operations, shaped like interpreter.go / builtins.go: [h, v, err]
 SetItem(o, i, val) == [o EXCEPT !.items[i] = val]
